@@ -207,12 +207,12 @@ m('C17-retry', 'C17', RP,
   """    exception_checker=lambda exc: isinstance(exc, db_exc.DBDuplicateEntry))""",
   """    exception_checker=lambda exc: False)""",
   'aggregate duplicate race no longer retried')
-m('C18-split', 'C18 C17', HA,
+m('C04-consumer-attrs', 'C04 C12', HA,
   """        data_util.update_consumers([consumer], {consumer_uuid: request_attr})
 
         alloc_obj.replace_all(ctx, allocation_objects)""",
   """        alloc_obj.replace_all(ctx, allocation_objects)""",
-  'placeholder')
+  'PUT allocations no longer applies the named project/user/type')
 m('C19-nextid', 'C19', 'placement/objects/resource_class.py',
   """        if not max_id or max_id < ResourceClass.MIN_CUSTOM_RESOURCE_CLASS_ID:
             return ResourceClass.MIN_CUSTOM_RESOURCE_CLASS_ID""",
